@@ -1,6 +1,7 @@
 package binaryheap
 
 import (
+	"encoding/json"
 	"github.com/emirpasic/gods/v2/containers"
 	"github.com/emirpasic/gods/v2/lists/arraylist"
 	vl "github.com/emirpasic/gods/v2/zzvlib"
@@ -150,4 +151,29 @@ func VHIter() {
 func VHSnap() {
 	c, _ := VGHeap()
 	containers.VSnapStep(containers.VSnap{C: c, Mutate: []func(){c.Clear, func() { c.Push(v.Int("m")) }, func() { c.Pop() }}, AddArgs: []func([]int){func(a []int) { c.Push(a...) }}})
+}
+
+var _ = vl.Less
+
+func vJSON(c *Heap[int]) containers.VJSON {
+	return containers.VJSON{C: c, ToJSON: c.ToJSON, FromJSON: c.FromJSON,
+		Marshal: func() ([]byte, error) { return json.Marshal(c) },
+		Inv:     func() { VInv(c) },
+		Step:    func() { c.Push(v.Int("sx")); VInv(c) },
+		Fresh:   func() containers.VJSON { return vJSON(NewWith[int](vl.Cmp)) },
+		Multiset: true, Ref: func(ks, xs []int) ([]int, []int) { return nil, xs },
+		Drain: func() []int { var out []int; for { x, ok := c.Pop(); if !ok { return out }; out = append(out, x) } },
+	}
+}
+
+// VHJSONRound: ToJSON / json.Marshal / FromJSON round trip from an arbitrary state (C11).
+func VHJSONRound() {
+	c, _ := VGHeap()
+	containers.VJSONRound(vJSON(c))
+}
+
+// VHJSONLoad: FromJSON of an arbitrary document into an arbitrary prior state (C12, C17).
+func VHJSONLoad() {
+	c, _ := VGHeap()
+	containers.VJSONLoad(vJSON(c))
 }
